@@ -101,6 +101,10 @@ type Config struct {
 	Unfunded []string
 	Height   int64
 	Time     time.Time
+	// DB to run on (default: a fresh MemDB). With Restart the application is
+	// re-created over an already initialised DB (no InitChain, no block 1).
+	DB      dbm.DB
+	Restart bool
 }
 
 type World struct {
@@ -132,7 +136,14 @@ func New(cfg Config) *World {
 		panic(err)
 	}
 	defer os.RemoveAll(tmp)
-	a := app.New(log.NewNopLogger(), dbm.NewMemDB(), nil, true,
+	var lg log.Logger = log.NewNopLogger()
+	if os.Getenv("VERIF_LOG") != "" {
+		lg = log.NewLogger(os.Stderr)
+	}
+	if cfg.DB == nil {
+		cfg.DB = dbm.NewMemDB()
+	}
+	a := app.New(lg, cfg.DB, nil, true,
 		simtestutil.NewAppOptionsWithFlagHome(tmp), baseapp.SetChainID(ChainID))
 	w := &World{App: a, Users: map[string]*Actor{}, rnd: rand.New(rand.NewSource(1))}
 	w.Gov = authtypes.NewModuleAddress(govtypes.ModuleName).String()
@@ -203,6 +214,9 @@ func New(cfg Config) *World {
 	})
 	supply = supply.Add(sdk.NewCoin(BondDenom, bonded))
 
+	if cfg.Restart {
+		return w
+	}
 	gs := a.DefaultGenesis()
 	cdc := a.AppCodec()
 	gs[authtypes.ModuleName] = cdc.MustMarshalJSON(authtypes.NewGenesisState(authtypes.DefaultParams(), accs))
@@ -239,7 +253,7 @@ func New(cfg Config) *World {
 	w.Root = a.NewUncachedContext(false, cmtproto.Header{ChainID: ChainID, Height: h, Time: cfg.Time.Add(time.Second)}).
 		WithConsensusParams(*simtestutil.DefaultConsensusParams).
 		WithBlockGasMeter(storetypes.NewInfiniteGasMeter()).
-		WithEventManager(sdk.NewEventManager())
+		WithEventManager(sdk.NewEventManager()).WithLogger(lg)
 	return w
 }
 
@@ -472,4 +486,10 @@ func (w *World) User(name string) *Actor {
 		panic("no user " + name)
 	}
 	return u
+}
+
+// BuildTxWith signs msgs with an explicit account number / sequence.
+func (w *World) BuildTxWith(signer *Actor, accNum, seq uint64, msgs ...sdk.Msg) (sdk.Tx, error) {
+	return simtestutil.GenSignedMockTx(rand.New(rand.NewSource(7)), w.App.TxConfig(), msgs, sdk.NewCoins(),
+		50_000_000, ChainID, []uint64{accNum}, []uint64{seq}, signer.Priv)
 }
